@@ -27,22 +27,17 @@ theorem C10_no_collision (cfg : Cfg) (h : List Event) :
   exact ⟨hm.pids_nodup, fun p hp => (hm.pid_pos p hp).2, hd.eids_nodup, fun e he => (hd.eid_range e he).2,
          hd.tids_nodup, hd.names_nodup, fun t ht => (hd.tid_range t ht).2, hd.asset_ids, fun a ha => (hd.asset_range a ha).2⟩
 
-/-- Component type ids and names map one-to-one: a name resolves to an id exactly when that id resolves
-    to the name. -/
-theorem C10_types_bijective (s : Session) (h : s.DataOK) (name : String) (t : Nat) :
-    s.typeId name = some t ↔ s.typeName t = some name := by
-  unfold Session.typeId Session.typeName
-  have hn := h.names_nodup
-  have ht := h.tids_nodup
-  induction s.types with
+theorem types_bijective_list (l : List (Nat × String)) (hn : (l.map (·.2)).Nodup) (ht : (l.map (·.1)).Nodup)
+    (name : String) (t : Nat) :
+    (l.find? (·.2 == name)).map (·.1) = some t ↔ (l.find? (·.1 == t)).map (·.2) = some name := by
+  induction l with
   | nil => simp
   | cons x xs ih =>
     simp only [List.map_cons, List.nodup_cons, List.mem_map, not_exists, not_and] at hn ht
     simp only [List.find?_cons]
     by_cases h1 : x.2 = name <;> by_cases h2 : x.1 = t
     · simp [h1, h2]
-    · -- x carries the name but another id: no later entry carries the same name
-      have hb1 : (x.2 == name) = true := by simpa using h1
+    · have hb1 : (x.2 == name) = true := by simpa using h1
       have hb2 : (x.1 == t) = false := by simpa using h2
       simp only [hb1, hb2, Option.map_some, Option.some.injEq]
       constructor
@@ -66,6 +61,12 @@ theorem C10_types_bijective (s : Session) (h : s.DataOK) (name : String) (t : Na
       have hb2 : (x.1 == t) = false := by simpa using h2
       simp only [hb1, hb2]
       exact ih hn.2 ht.2
+
+/-- Component type ids and names map one-to-one: a name resolves to an id exactly when that id resolves
+    to the name. -/
+theorem C10_types_bijective (s : Session) (h : s.DataOK) (name : String) (t : Nat) :
+    s.typeId name = some t ↔ s.typeName t = some name :=
+  types_bijective_list s.types h.names_nodup h.tids_nodup name t
 
 /-- how the counters of a session may move in one step: never backwards, and the participant counter
     only on a join -/
